@@ -4,6 +4,7 @@ import (
 	"context"
 	"fmt"
 	"io"
+	"net"
 	"sync"
 	"time"
 
@@ -441,4 +442,13 @@ func opOf(t websocket.MessageType) byte {
 		return wire.OpText
 	}
 	return wire.OpBinary
+}
+
+func attachClientP(ctx context.Context, t io.ReadWriteCloser, p wire.Params, threshold int) (*websocket.Conn, error) {
+	return attach.Client(ctx, t, attach.ClientOpts{Params: p, Threshold: threshold})
+}
+
+func attachServerP(t net.Conn, p wire.Params, threshold int) (*websocket.Conn, any, error) {
+	c, rec, err := attach.Server(t, attach.ServerOpts{Params: p, Threshold: threshold})
+	return c, rec, err
 }
